@@ -352,6 +352,14 @@ class Entropy:
         return got
 
 
+class FalsyEntropy(Entropy):
+    """the same entropy function, but an object that is falsy (an empty pool has len 0): whether a callable is
+    truthy must not matter to the library (`entropy_f or os.urandom` would silently replace it)"""
+
+    def __len__(self):
+        return 0
+
+
 _real_urandom = os.urandom
 
 
@@ -391,7 +399,7 @@ class Trace:
         inst = "i%d" % self.n
         P = self.uni.params[ps]
         K = self._cls(cls)
-        ent = entropy if entropy is not None else Entropy(b"")
+        ent = entropy if entropy is not None else (FalsyEntropy(b"") if self.n % 2 == 1 else Entropy(b""))
         if cls == "S":
             o = K(pw, idSymmetric=idA, params=P, entropy_f=ent)
         else:
